@@ -20,6 +20,17 @@ def digest(cal, ret):
     return h.hexdigest()
 
 
+def run_with_swap(cal, cfg, n, swap):
+    """calibrate(n), optionally replacing the line-up (set_samplers) after `swap["after"]` batches."""
+    from harness import gen
+
+    if not swap or swap["after"] >= n:
+        return cal.calibrate(n)
+    cal.calibrate(swap["after"])
+    cal.set_samplers([gen.make_sampler(s) for s in swap["lineup"]])
+    return cal.calibrate(n - swap["after"])
+
+
 if __name__ == "__main__":
     import contextlib
     import io
@@ -31,5 +42,5 @@ if __name__ == "__main__":
         import warnings
         warnings.simplefilter("ignore")
         cal = calib.build(case["cfg"], seeds=case["variant"]["seeds"], n_jobs=1, verbose=False, saving_folder=None)
-        ret = cal.calibrate(case["n"])
+        ret = run_with_swap(cal, case["cfg"], case["n"], case.get("swap"))
     sys.stdout.write("DIGEST " + digest(cal, ret) + "\n")
